@@ -20,6 +20,8 @@ def keys_for(items, labels, kind, n):
         if s not in seen:
             seen.append(s)
             ks.append(([2, cps(s)], s))
+    for s in list(dict.fromkeys(labels))[:3] + ["absent"]:
+        ks.append(([2, cps(s)], api.Named(s)))          # the same texts as str-subclass instances
     return ks, [([3], None), ([4, 1], 1.5), ([4, 2], b"c7"), ([4, 3], ["c7"]), ([4, 4], (0,)), ([4, 5], object())]
 
 
